@@ -343,3 +343,91 @@ func VerifC34_flowAdd() {
 		vrt.Assert(int64(f.n) == sum, "C34/window-arithmetic-exact")
 	}
 }
+
+// VerifC34_windowShrink: the RFC 7540 6.9.2 scenario as a fixed three-event history on one response stream,
+// from an arbitrary state of the windows: the handler produces one DATA frame of 1..L bytes, the client
+// changes SETTINGS_INITIAL_WINDOW_SIZE to any value (lowering it may leave the stream window negative:
+// "a sender MUST track the negative flow-control window and MUST NOT send new flow-controlled frames
+// until it receives WINDOW_UPDATE frames that cause the window to become positive") and sends a stream
+// WINDOW_UPDATE with any increment - in the order DATA, SETTINGS, WINDOW_UPDATE (the write is blocked or
+// partly sent when the window shrinks) or, with ORDERS=2, also SETTINGS, WINDOW_UPDATE, DATA. After every event the harness
+// plays the write goroutine and checks what was released against the ghost client of VerifC34_conn.
+func VerifC34_windowShrink() {
+	sc, _ := newConnH2()
+	sc.sawFirstSettings = true
+	var g ghostC34
+	sc.flow.n = 1 << 30 // the connection window is kept out of the way (VerifC34_take / VerifC34_conn vary it)
+	g.connWin = int64(sc.flow.n)
+	sc.initialWindowSize = vrt.I32("initialWindowSize")
+	// all quantities below 2^20 in magnitude: no sum gets near 2^31 (window overflow is decided by
+	// VerifC34_flowAdd and VerifC34_conn), which keeps the solver fast
+	const bound = 1 << 20
+	vrt.Assume(sc.initialWindowSize >= 0 && sc.initialWindowSize <= bound)
+	st := &stream{id: 1, state: stateHalfClosedRemote}
+	attachStreamH2(sc, st)
+	st.flow.n = vrt.I32("streamWindow") // may already be negative (6.9.2)
+	vrt.Assume(st.flow.n >= -bound && st.flow.n <= bound)
+	g.win[0] = int64(st.flow.n)
+	sc.streams[st.id] = st
+	sc.curOpenStreams = 1
+	sc.maxStreamID = 1
+	maxFrame := sc.writeSched.maxFrameSize
+
+	pump := func() {
+		for i := 0; i < 6; i++ {
+			select {
+			case wm := <-sc.writeFrameCh:
+				if wm.stream != nil {
+					vrt.Assert(wm.stream == st, "C34/only-produced-frames-are-sent")
+					g.observeC34(0, wm, maxFrame)
+				}
+				sc.wroteFrame(frameWriteResult{wm: wm})
+			default:
+				return
+			}
+		}
+	}
+	produce := func() {
+		l := vrt.Range("len", 1, vrt.Param("L", 2))
+		p := vrt.Bytes("payload", l)
+		g.nfr[0] = 1
+		g.isData[0][0] = true
+		g.data[0][0] = append([]byte(nil), p...)
+		sc.writeFrame(frameWriteMsg{write: &writeData{streamID: st.id, p: p}, stream: st})
+		pump()
+	}
+
+	dataFirst := true
+	if vrt.Param("ORDERS", 1) == 2 {
+		dataFirst = vrt.Choose("dataFirst", 2) == 1
+	}
+	if dataFirst {
+		produce()
+	}
+
+	val := vrt.U32("newInitialWindow")
+	vrt.Assume(val <= bound)
+	old := int64(sc.initialWindowSize)
+	err := sc.processSettings(settingsFrameC34(SettingInitialWindowSize, val))
+	g.win[0] += int64(val) - old
+	vrt.Assert(err == nil, "C34/legal-window-change-accepted")
+	if err != nil {
+		return
+	}
+	pump()
+
+	inc := vrt.U32("increment")
+	vrt.Assume(inc >= 1 && inc <= bound)
+	err = sc.processWindowUpdate(&WindowUpdateFrame{FrameHeader: FrameHeader{valid: true, Type: FrameWindowUpdate, Length: 4, StreamID: st.id}, Increment: inc})
+	g.win[0] += int64(inc)
+	vrt.Assert(err == nil, "C34/legal-window-change-accepted")
+	if err != nil {
+		return
+	}
+	pump()
+
+	if !dataFirst {
+		produce()
+	}
+	vrt.Cover("C34/shrink-history-done")
+}
